@@ -7,6 +7,7 @@ pub mod c09;
 pub mod c10;
 pub mod c11;
 pub mod c12;
+pub mod c13;
 pub mod c17;
 pub mod c18;
 
@@ -23,6 +24,7 @@ pub fn dispatch(p: &str, rep: &mut Report) -> bool {
         "C10" => c10::run(rep),
         "C11" => c11::run(rep),
         "C12" => c12::run(rep),
+        "C13" => c13::run(rep),
         "C17" => c17::run(rep),
         "C18" => c18::run(rep),
         _ => return false,
